@@ -246,7 +246,7 @@ func (f *function) evaluate() (data string, changed bool, err error) {
 
 	var buf bytes.Buffer
 	b64 := base64.NewEncoder(base64.StdEncoding, &buf)
-	if err := pickle.NewEncoder(b64, pickle.PicklerFunc(envPickler)).Encode(f.function); err != nil {
+	if err := pickle.NewEncoder(b64, newEnvPickler()).Encode(f.function); err != nil {
 		return "", false, err
 	}
 	b64.Close()
@@ -290,10 +290,35 @@ func (f *function) load() error {
 // pickler.
 func functionEnv(f starlark.Callable) (starlark.Value, error) {
 	var buf bytes.Buffer
-	if err := pickle.NewEncoder(&buf, pickle.PicklerFunc(envPickler)).Encode(f); err != nil {
+	if err := pickle.NewEncoder(&buf, newEnvPickler()).Encode(f); err != nil {
 		return nil, err
 	}
 	return pickle.NewDecoder(&buf, pickle.UnpicklerFunc(envUnpickler)).Decode()
+}
+
+// newEnvPickler returns the pickler for a single encoding of a function's environment.
+//
+// Functions and function code are pickled after their arguments, so a function that refers to
+// itself--through its globals, its free variables, its default parameter values, or any data
+// reachable from those--would otherwise be pickled forever. The encoder only consults the pickler
+// for values that it has not finished encoding, so being asked about the same function or function
+// code a second time means that the value is reachable from itself. Such a reference is pickled as
+// (NEWOBJ "dawn" "Recursive" (name, index)), where index is the position of the value among the
+// functions and function code seen by this encoding. The index identifies the referent, so the
+// encoding still determines the environment.
+func newEnvPickler() pickle.PicklerFunc {
+	seen := map[starlark.Value]int{}
+	return func(x starlark.Value) (module, name string, args starlark.Tuple, err error) {
+		switch x.(type) {
+		case *starlark.FunctionCode, *starlark.Function:
+			if index, ok := seen[x]; ok {
+				name := x.(interface{ Name() string }).Name()
+				return "dawn", "Recursive", starlark.Tuple{starlark.String(name), starlark.MakeInt(index)}, nil
+			}
+			seen[x] = len(seen)
+		}
+		return envPickler(x)
+	}
 }
 
 // envPickler provides support for pickling functions and modules.
@@ -325,6 +350,8 @@ func envPickler(x starlark.Value) (module, name string, args starlark.Tuple, err
 //     into a dictionary.
 //   - Functions are unpickled from (NEWOBJ "dawn" "Function" (defaults, freevars, code))
 //     into a dictionary.
+//   - References from a function or function code to itself are unpickled from
+//     (NEWOBJ "dawn" "Recursive" (name, index)) into (name, index).
 func envUnpickler(module, name string, args starlark.Tuple) (starlark.Value, error) {
 	if module != "dawn" {
 		return nil, fmt.Errorf("cannot unpickle value of type %s.%s", module, name)
@@ -339,6 +366,11 @@ func envUnpickler(module, name string, args starlark.Tuple) (starlark.Value, err
 	case "Builtin":
 		if len(args) != 0 {
 			return nil, fmt.Errorf("expected 0 args, got %v", len(args))
+		}
+		return args, nil
+	case "Recursive":
+		if len(args) != 2 {
+			return nil, fmt.Errorf("expected 2 args, got %v", len(args))
 		}
 		return args, nil
 	case "FunctionCode":
